@@ -15,7 +15,7 @@ import fuzzylite as fl
 PID = "C19"
 MODULES = ["FlVerif.Props.C19"]
 NAMESPACE = "C19"
-TIE_A = []
+TIE_A = ["code:fuzzylite.engine.Engine.is_ready"]
 RULE = ("engines with 2 inputs, 1-2 outputs (integral or weighted defuzzifier, with/without defuzzifier, aggregation, terms), "
         "1-2 rule blocks with every subset of {conjunction, disjunction, implication, activation} removed, rule sets drawn from "
         "{plain, and, or, and+or, two conclusions, unloaded, disabled, tab/parenthesis-separated operators}; single block x single "
